@@ -1,5 +1,6 @@
 (* Properties_C01.v — C01 (hunk level): applying a conforming diff of A to B to A yields exactly B. *)
-From PatchV Require Import Base Lines Hunk Locator Options Applier Parser World Driver Spec_Locate Spec_Apply Proofs_Conf Proofs_EndToEnd.
+From PatchV Require Import Base Lines Hunk Locator Formatter Options Applier LineParser Parser World Driver Spec_Locate Spec_Apply Proofs_Conf Proofs_EndToEnd
+     Proofs_Unified Spec_Normal Proofs_Normal Proofs_NormalConf.
 
 (* any option record without -R, -D, --verbose; any -F >= 0, with or without -l, -N, -t, -f, any newline
    mode and reject format; files of fewer than 2^63-1 lines; a patch whose old file is /dev/null (one that
@@ -76,3 +77,119 @@ Proof.
     apply (Conf_cons 3 3 [ex_l "b"] ex_h2 [] [] []); try reflexivity; [discriminate|]. constructor.
   - intros H. vm_compute in H. discriminate.
 Qed.
+
+(* ---------------------------------------------------------------------------------------------------------------
+   C01 (and C05) for the NORMAL diff format: what a producer writes (Spec_Normal.v, a specification: the program never
+   writes this format; checked byte for byte against GNU diff output in an Example) is read back as the same hunks, and the
+   normal diff of A to B applied to A gives B (with -R applied to B gives A).  Proofs in Proofs_Normal.v, Proofs_NormalConf.v. *)
+
+(* a command line that is written is read back as the ranges of the hunk: for "a" the old number is the line after
+   which the lines are added (count 0), for "d" the new number is the line after which they would have been (count 0),
+   otherwise first line and number of lines *)
+Theorem parse_normal_header : forall h h0,
+  wf_hunk_n h -> parse_normal_range h0 (normal_header h) = (true, mkHunk (oldr h) (newr h) (body h0)).
+Proof. exact Proofs_Normal.parse_normal_header. Qed.
+Print Assumptions parse_normal_header.
+
+(* Change groups written as a normal diff are read back as exactly the same hunks — same stated lines and counts, same
+   old-side and new-side lines in the same order, same missing-newline marks — and the parser stops where they end.
+   wf_hunk_n: a non-empty body that is its deletions followed by its additions (no context); per side: no line feed
+   inside a line, no trailing CR, terminators LF, or none on the last line only; start, count and last line of each
+   range within 0..2^63-1; counts equal to the numbers of lines.
+   tail_ok_n: what follows does not begin with '\' or '-', and its first line is empty, or unterminated, or not a
+   command line.  after_n: the stream in front of the tail (an empty or unterminated first line of the tail is consumed). *)
+Theorem normal_roundtrip : forall hs tail,
+  hs <> [] -> Forall wf_hunk_n hs -> tail_ok_n tail ->
+  parse_normal_patch (strm (emit_normal hs ++ tail)) = Ok (hs, after_n tail).
+Proof. exact Proofs_Normal.normal_roundtrip. Qed.
+Print Assumptions normal_roundtrip.
+
+Theorem normal_roundtrip_sides : forall hs tail,
+  hs <> [] -> Forall wf_hunk_n hs -> tail_ok_n tail ->
+  exists hs', parse_normal_patch (strm (emit_normal hs ++ tail)) = Ok (hs', after_n tail) /\
+              map oldr hs' = map oldr hs /\ map newr hs' = map newr hs /\
+              map (fun h => old_side (body h)) hs' = map (fun h => old_side (body h)) hs /\
+              map (fun h => new_side (body h)) hs' = map (fun h => new_side (body h)) hs.
+Proof. exact Proofs_Normal.normal_roundtrip_sides. Qed.
+Print Assumptions normal_roundtrip_sides.
+
+Theorem normal_body_roundtrip : forall p hs tail,
+  pfmt p = FNormal -> hs <> [] -> Forall wf_hunk_n hs -> tail_ok_n tail ->
+  parse_patch_body p (strm (emit_normal hs ++ tail)) = Ok (set_hunks p (hunks p ++ hs), after_n tail).
+Proof. exact Proofs_Normal.normal_body_roundtrip. Qed.
+Print Assumptions normal_body_roundtrip.
+
+(* the hypotheses in everyday terms *)
+Theorem tail_ok_n_nil : tail_ok_n [].
+Proof. exact Proofs_Normal.tail_ok_n_nil. Qed.
+Theorem tail_ok_n_text : forall c l2 more,
+  clean (c :: l2) -> is_digit c = false -> c <> 92%N -> c <> 45%N -> tail_ok_n ((c :: l2) ++ 10%N :: more).
+Proof. exact Proofs_Normal.tail_ok_n_text. Qed.
+Theorem after_n_line : forall l2 more, clean l2 -> l2 <> [] -> after_n (l2 ++ 10%N :: more) = strm (l2 ++ 10%N :: more).
+Proof. exact Proofs_Normal.after_n_line. Qed.
+Theorem wf_mk_change : forall os ns ds as_,
+  (ds <> [] \/ as_ <> []) -> side_ok ds -> side_ok as_ ->
+  wf_range_n (mkRange os (Z.of_nat (length ds))) -> wf_range_n (mkRange ns (Z.of_nat (length as_))) ->
+  wf_hunk_n (mk_change os ns ds as_).
+Proof. exact Proofs_Normal.wf_mk_change. Qed.
+Theorem wf_hunk_n_shape : forall h, wf_hunk_n h ->
+  h = mk_change (rstart (oldr h)) (rstart (newr h)) (old_side (body h)) (new_side (body h)).
+Proof. exact Proofs_Normal.wf_hunk_n_shape. Qed.
+
+(* the parsed hunks tile A and B whenever the emitted ones do *)
+Theorem normal_roundtrip_conforming : forall A B hs tail,
+  hs <> [] -> Forall wf_hunk_n hs -> tail_ok_n tail -> Conforming A B hs ->
+  exists hs', parse_normal_patch (strm (emit_normal hs ++ tail)) = Ok (hs', after_n tail) /\ Conforming A B hs'.
+Proof. exact Proofs_NormalConf.normal_roundtrip_conforming. Qed.
+Print Assumptions normal_roundtrip_conforming.
+
+(* the change groups of an edit script tile its old and new file, and are well formed when both files are readable *)
+Theorem script_conf : forall sc a b fin,
+  Forall seg_ok sc -> Conf a b (script_old sc fin) (script_new sc fin) (script_hunks a b sc).
+Proof. exact Proofs_NormalConf.script_conf. Qed.
+Print Assumptions script_conf.
+
+Theorem script_wf : forall sc a b fin,
+  Forall seg_ok sc -> side_ok (script_old sc fin) -> side_ok (script_new sc fin) ->
+  (Z.of_nat (a + length (script_old sc fin)) <= MAXZ)%Z -> (Z.of_nat (b + length (script_new sc fin)) <= MAXZ)%Z ->
+  Forall wf_hunk_n (script_hunks a b sc).
+Proof. exact Proofs_NormalConf.script_wf. Qed.
+Print Assumptions script_wf.
+
+(* C01 for the normal format: the normal diff of A to B, read by the parser and applied to A, gives B *)
+Theorem normal_diff_applies : forall o p sc fin tail,
+  sc <> [] -> Forall seg_ok sc ->
+  side_ok (script_old sc fin) -> side_ok (script_new sc fin) ->
+  (Z.of_nat (length (script_old sc fin)) < MAXZ)%Z -> (Z.of_nat (length (script_new sc fin)) < MAXZ)%Z ->
+  tail_ok_n tail ->
+  pfmt p = FNormal -> hunks p = [] -> creation_guard p (script_old sc fin) ->
+  define_macro o = [] -> verbose o = false -> reverse_patch_opt o = false -> (0 <= max_fuzz o)%Z ->
+  exists p' r,
+    parse_patch_body p (strm (emit_normal (script_hunks 0 0 sc) ++ tail)) = Ok (p', after_n tail) /\
+    apply_patch o (script_old sc fin) p' = Ok r /\ r_out r = script_new sc fin /\ r_failed r = 0 /\ r_rej r = [] /\
+    r_skipped r = false /\ r_perfect r = true /\ r_msgs r = [].
+Proof. exact Proofs_NormalConf.normal_diff_applies. Qed.
+Print Assumptions normal_diff_applies.
+
+(* C05 for the normal format: applied with -R to B it gives A *)
+Theorem normal_diff_reverses : forall o p sc fin tail,
+  sc <> [] -> Forall seg_ok sc ->
+  side_ok (script_old sc fin) -> side_ok (script_new sc fin) ->
+  (Z.of_nat (length (script_old sc fin)) < MAXZ)%Z -> (Z.of_nat (length (script_new sc fin)) < MAXZ)%Z ->
+  tail_ok_n tail ->
+  pfmt p = FNormal -> hunks p = [] ->
+  (str_eqb (new_path p) (bs "/dev/null") = true -> script_new sc fin = []) ->
+  define_macro o = [] -> verbose o = false -> reverse_patch_opt o = true -> (0 <= max_fuzz o)%Z ->
+  exists p' r,
+    parse_patch_body p (strm (emit_normal (script_hunks 0 0 sc) ++ tail)) = Ok (p', after_n tail) /\
+    apply_patch o (script_new sc fin) p' = Ok r /\ r_out r = script_old sc fin /\ r_failed r = 0 /\ r_rej r = [] /\
+    r_skipped r = false /\ r_perfect r = true /\ r_msgs r = [].
+Proof. exact Proofs_NormalConf.normal_diff_reverses. Qed.
+Print Assumptions normal_diff_reverses.
+
+(* non-vacuity: what GNU diff prints for a,b,c,d,e,f -> x,a,b,d,e,F,G(no newline), followed by further text *)
+Import NormalExamples.
+Example roundtrip_nonvacuous :
+  Forall wf_hunk_n [hA; hD; hC] /\ tail_ok_n ex_tail /\ emit_normal [hA; hD; hC] = ex_text /\
+  parse_normal_patch (strm (ex_text ++ ex_tail)) = Ok ([hA; hD; hC], strm ex_tail).
+Proof. exact (conj ex_wf (conj ex_tail_ok (conj ex_emit ex_roundtrip))). Qed.
